@@ -58,12 +58,12 @@ def run_rounds(rs, val, N=2):
     cfp = dict(NMONTHS=N)
 
     class Loader:
-        def compute_parameters_second_round(self, *a):
-            seen["second"] = a
+        def compute_parameters_second_round(self, *a, **k):
+            seen["second"] = list(a) + list(k.values())
             return c2, t2, fb2, md2, minhuman
 
-        def compute_parameters_third_round(self, *a):
-            seen["third"] = a
+        def compute_parameters_third_round(self, *a, **k):
+            seen["third"] = list(a) + list(k.values())
             return c3, t3, fb3, md3
 
     runner = rs.ScenarioRunner()
@@ -127,13 +127,30 @@ def _obligations_with(E, seen, o, sb, conj):
             out.append(("each round is solved with the constants and series computed for THAT round", conj([sb(_same_numbers(E, opt[i][0], o[ck])), sb(_same_numbers(E, opt[i][1], o[tk]))])))
     if len(opt) > 1:
         out.append(("only the feed round is given the pinned human consumption", opt[0][3] is None and opt[1][3] is o["minhuman"] and opt[2][3] is None))
+    # what the parameter computations receive, whatever the order or spelling of the arguments: tagged objects by identity, constants / series by content
+    def has(args, obj):
+        return args is not None and any(x is obj for x in args)
+
+    def has_numbers(args, obj):
+        if args is None:
+            return False
+        if any(x is obj for x in args):
+            return True
+        for x in args:
+            if isinstance(x, dict) and not isinstance(obj, dict):
+                continue
+            if isinstance(x, dict) and set(x.keys()) == set(obj.keys()):
+                r = _same_numbers(E, x, obj)
+                if r is True or (r is not False and bool(sb(r))):
+                    return True
+        return False
     s = seen["second"]
     out.append(("the feed round's parameters are computed from the run's inputs and the no-feed round's constants, series and result",
-                s is not None and s[0] is o["cfp"] and sb(_same_numbers(E, s[1], o["c1"])) and sb(_same_numbers(E, s[2], o["t1"])) and s[3] is o["r1"]))
+                has(s, o["cfp"]) and has_numbers(s, o["c1"]) and has_numbers(s, o["t1"]) and has(s, o["r1"])))
     t = seen["third"]
     out.append(("the final round's parameters are computed from both earlier rounds' constants, series and results, the demand schedules and the no-feed herd",
-                t is not None and t[0] is o["cfp"] and sb(_same_numbers(E, t[1], o["c1"])) and sb(_same_numbers(E, t[2], o["c2"])) and sb(_same_numbers(E, t[3], o["t1"])) and sb(_same_numbers(E, t[4], o["t2"]))
-                and t[5] is o["r1"] and t[6] is o["r2"] and t[7] is o["fb1"] and t[8] is o["feed_demand"] and t[9] is o["bio_demand"] and t[10] is o["fmo1"]))
+                has(t, o["cfp"]) and has_numbers(t, o["c1"]) and has_numbers(t, o["c2"]) and has_numbers(t, o["t1"]) and has_numbers(t, o["t2"])
+                and has(t, o["r1"]) and has(t, o["r2"]) and has(t, o["fb1"]) and has(t, o["feed_demand"]) and has(t, o["bio_demand"]) and has(t, o["fmo1"])))
     out.append(("every result carries the meat dictionary and the feed of its own round",
                 ("meat", o["md0"]) in o["r1"].calls and ("feed", o["fb1"]) in o["r1"].calls and ("meat", o["md2"]) in o["r2"].calls and ("meat", o["md3"]) in o["r3"].calls
                 and ("feed", o["fb3"]) in o["r3"].calls and not any(k == "meat" and d is not o["md3"] for k, d in o["r3"].calls)))
@@ -142,7 +159,7 @@ def _obligations_with(E, seen, o, sb, conj):
 
 def worker_glue(case, seed):
     rs = _mods()
-    E = Engine(seed=seed, max_paths=50)
+    E = Engine(seed=seed, max_paths=400)
 
     def h(E):
         def val(name):
